@@ -169,9 +169,16 @@ type injected struct {
 
 // next builds the next valid snapshot of a chain holding one fresh deposit.
 func (inj *injector) next(chainIdx int, newRound bool) (*injected, error) {
+	return inj.nextWith(chainIdx, newRound, nil)
+}
+
+// nextWith is next for a caller-provided transaction (nil: a fresh deposit).
+func (inj *injector) nextWith(chainIdx int, newRound bool, tx *common.VersionedTransaction) (*injected, error) {
 	ch := inj.chains[chainIdx%len(inj.chains)]
 	inj.seq++
-	tx, _ := inj.c.MakeDeposit(cluster.AssetBTC, common.NewIntegerFromString("0.5"), fmt.Sprintf("inj-%d", inj.seq), 0, []int{0}, 1)
+	if tx == nil {
+		tx, _ = inj.c.MakeDeposit(cluster.AssetBTC, common.NewIntegerFromString("0.5"), fmt.Sprintf("inj-%d", inj.seq), 0, []int{0}, 1)
+	}
 	gap := config.SnapshotRoundGap
 	var start, end uint64
 	for i, s := range ch.snaps {
